@@ -10,6 +10,16 @@ package main
 //                      "update" – the right-hand side detMentions the field (append(g.f, …), g.f || x, …) or op=
 //                    and every `&<recv>.<field>` (kind "addr": the field is handed to a callee that may reset it).
 //
+//   genStateResets : every UNCONDITIONAL re-initialisation of such a field: a statement at the TOP LEVEL of a method body
+//                    (not nested in if / for / switch / select / a function literal)
+//                      `<recv>.<field> = rhs`  with rhs not mentioning the field              how = "direct"
+//                      a call `<recv>.<m>(…, &<recv>.<field>, …)` whose callee `m` has, at the top level of ITS body,
+//                      `*<param> = rhs` for the parameter in that position (rhs not mentioning it)   how = "via <m>"
+//                    (package dir, method, field, how, number of earlier top-level statements of the method that contain a `return`)
+//   genStateCalls  : every call `<recv>.<m>(…)` of a method of a state struct of the same package made by a top-level statement
+//                    of a method body, outside function literals and outside the right operand of && / ||
+//                    (package dir, caller, callee)
+//
 // Used by ShootVerif/Props/C08.lean: every field must be classified (config / reset / derived / carried) and the
 // classification must agree with where the field is written.
 
@@ -28,6 +38,118 @@ import (
 
 type gsField struct{ pkg, strct, field, typ string }
 type gsWrite struct{ pkg, fn, field, kind string }
+type gsReset struct {
+	pkg, fn, field, how string
+	early               int
+}
+type gsCall struct{ pkg, caller, callee string }
+
+// detHasReturn: a `return` anywhere in the statement, function literals excluded
+func detHasReturn(s ast.Stmt) bool {
+	found := false
+	ast.Inspect(s, func(n ast.Node) bool {
+		switch n.(type) {
+		case *ast.FuncLit:
+			return false
+		case *ast.ReturnStmt:
+			found = true
+		}
+		return !found
+	})
+	return found
+}
+
+// detTopCalls: the call expressions a top-level statement evaluates unconditionally (simple statements, the init statement of
+// an if / switch; not the bodies of compound statements, not function literals, not the right operand of && / ||)
+func detTopCalls(s ast.Stmt) []*ast.CallExpr {
+	var roots []ast.Node
+	switch v := s.(type) {
+	case *ast.ExprStmt, *ast.AssignStmt, *ast.ReturnStmt, *ast.DeclStmt, *ast.IncDecStmt, *ast.SendStmt:
+		roots = append(roots, v)
+	case *ast.IfStmt:
+		if v.Init != nil {
+			roots = append(roots, v.Init)
+		}
+	case *ast.SwitchStmt:
+		if v.Init != nil {
+			roots = append(roots, v.Init)
+		}
+		if v.Tag != nil {
+			roots = append(roots, v.Tag)
+		}
+	}
+	var calls []*ast.CallExpr
+	var walk func(n ast.Node)
+	walk = func(n ast.Node) {
+		ast.Inspect(n, func(m ast.Node) bool {
+			switch w := m.(type) {
+			case *ast.FuncLit:
+				return false
+			case *ast.BinaryExpr:
+				if w.Op == token.LAND || w.Op == token.LOR {
+					walk(w.X)
+					return false
+				}
+			case *ast.CallExpr:
+				calls = append(calls, w)
+			}
+			return true
+		})
+	}
+	for _, r := range roots {
+		walk(r)
+	}
+	return calls
+}
+
+// detParamNames: the parameter names of a function in order (unnamed parameters as "")
+func detParamNames(ft *ast.FuncType) []string {
+	var out []string
+	if ft.Params == nil {
+		return out
+	}
+	for _, f := range ft.Params.List {
+		if len(f.Names) == 0 {
+			out = append(out, "")
+		}
+		for _, n := range f.Names {
+			out = append(out, n.Name)
+		}
+	}
+	return out
+}
+
+// detDerefResets: the parameters p of fn with a top-level `*p = rhs` (rhs not mentioning p)
+func detDerefResets(fn *ast.FuncDecl) map[string]bool {
+	out := map[string]bool{}
+	for _, st := range fn.Body.List {
+		as, ok := st.(*ast.AssignStmt)
+		if !ok || as.Tok != token.ASSIGN || len(as.Lhs) != len(as.Rhs) {
+			continue
+		}
+		for i, lhs := range as.Lhs {
+			star, ok := lhs.(*ast.StarExpr)
+			if !ok {
+				continue
+			}
+			id, ok := star.X.(*ast.Ident)
+			if !ok {
+				continue
+			}
+			uses := false
+			ast.Inspect(as.Rhs[i], func(n ast.Node) bool {
+				if x, ok := n.(*ast.Ident); ok && x.Name == id.Name {
+					uses = true
+				}
+				return !uses
+			})
+			if !uses {
+				out[id.Name] = true
+			}
+		}
+	}
+	return out
+}
 
 func detLeanStr(s string) string {
 	var b strings.Builder
@@ -76,6 +198,8 @@ func emitGenState(repo string) {
 	sort.Strings(dirs)
 	var fields []gsField
 	var writes []gsWrite
+	var resets []gsReset
+	var calls []gsCall
 	for _, d := range dirs {
 		st, err := os.Stat(d)
 		if err != nil || !st.IsDir() {
@@ -124,6 +248,89 @@ func emitGenState(repo string) {
 							fields = append(fields, gsField{rel, ts.Name.Name, n.Name, ty})
 							own[ts.Name.Name][n.Name] = true
 						}
+					}
+				}
+			}
+		}
+		// methods of the state structs of this package, by name (for the hand-over-by-address resets and the call table)
+		methods := map[string]*ast.FuncDecl{}
+		recvStruct := func(fn *ast.FuncDecl) string {
+			if fn.Recv == nil || len(fn.Recv.List) == 0 {
+				return ""
+			}
+			rt := fn.Recv.List[0].Type
+			if s, ok := rt.(*ast.StarExpr); ok {
+				rt = s.X
+			}
+			if id, ok := rt.(*ast.Ident); ok && own[id.Name] != nil {
+				return id.Name
+			}
+			return ""
+		}
+		for _, f := range files {
+			for _, decl := range f.Decls {
+				if fn, ok := decl.(*ast.FuncDecl); ok && fn.Body != nil && recvStruct(fn) != "" {
+					methods[fn.Name.Name] = fn
+				}
+			}
+		}
+		for _, f := range files {
+			for _, decl := range f.Decls {
+				fn, ok := decl.(*ast.FuncDecl)
+				if !ok || fn.Body == nil || recvStruct(fn) == "" || len(fn.Recv.List[0].Names) == 0 {
+					continue
+				}
+				recv := fn.Recv.List[0].Names[0].Name
+				fset2 := own[recvStruct(fn)]
+				early := 0
+				for _, st := range fn.Body.List {
+					if as, ok := st.(*ast.AssignStmt); ok && as.Tok == token.ASSIGN && len(as.Lhs) == len(as.Rhs) {
+						for i, lhs := range as.Lhs {
+							sel, ok := lhs.(*ast.SelectorExpr)
+							if !ok {
+								continue
+							}
+							x, ok := sel.X.(*ast.Ident)
+							if !ok || x.Name != recv || !fset2[sel.Sel.Name] || detMentions(as.Rhs[i], recv, sel.Sel.Name) {
+								continue
+							}
+							resets = append(resets, gsReset{rel, fn.Name.Name, sel.Sel.Name, "direct", early})
+						}
+					}
+					for _, c := range detTopCalls(st) {
+						sel, ok := c.Fun.(*ast.SelectorExpr)
+						if !ok {
+							continue
+						}
+						x, ok := sel.X.(*ast.Ident)
+						if !ok || x.Name != recv {
+							continue
+						}
+						callee := methods[sel.Sel.Name]
+						if callee == nil {
+							continue
+						}
+						calls = append(calls, gsCall{rel, fn.Name.Name, sel.Sel.Name})
+						params := detParamNames(callee.Type)
+						deref := detDerefResets(callee)
+						for i, a := range c.Args {
+							u, ok := a.(*ast.UnaryExpr)
+							if !ok || u.Op != token.AND || i >= len(params) {
+								continue
+							}
+							fs, ok := u.X.(*ast.SelectorExpr)
+							if !ok {
+								continue
+							}
+							fx, ok := fs.X.(*ast.Ident)
+							if !ok || fx.Name != recv || !fset2[fs.Sel.Name] || params[i] == "" || !deref[params[i]] {
+								continue
+							}
+							resets = append(resets, gsReset{rel, fn.Name.Name, fs.Sel.Name, "via " + sel.Sel.Name, early})
+						}
+					}
+					if detHasReturn(st) {
+						early++
 					}
 				}
 			}
@@ -247,6 +454,68 @@ func emitGenState(repo string) {
 			sep = ""
 		}
 		fmt.Printf("  (%s, %s, %s, %s)%s\n", detLeanStr(w.pkg), detLeanStr(w.fn), detLeanStr(w.field), detLeanStr(w.kind), sep)
+	}
+	fmt.Println("]")
+	seenR := map[gsReset]bool{}
+	var rs []gsReset
+	for _, r := range resets {
+		if !seenR[r] {
+			seenR[r] = true
+			rs = append(rs, r)
+		}
+	}
+	sort.Slice(rs, func(i, j int) bool {
+		a, b := rs[i], rs[j]
+		if a.pkg != b.pkg {
+			return a.pkg < b.pkg
+		}
+		if a.field != b.field {
+			return a.field < b.field
+		}
+		if a.fn != b.fn {
+			return a.fn < b.fn
+		}
+		if a.how != b.how {
+			return a.how < b.how
+		}
+		return a.early < b.early
+	})
+	fmt.Println("\n/-- (package, method, field, how, earlier top-level statements with a `return`): every UNCONDITIONAL (top-level) re-initialisation of a generator-state field; how = direct | via <callee> -/")
+	fmt.Println("def genStateResets : List (String × String × String × String × Nat) := [")
+	for i, r := range rs {
+		sep := ","
+		if i == len(rs)-1 {
+			sep = ""
+		}
+		fmt.Printf("  (%s, %s, %s, %s, %d)%s\n", detLeanStr(r.pkg), detLeanStr(r.fn), detLeanStr(r.field), detLeanStr(r.how), r.early, sep)
+	}
+	fmt.Println("]")
+	seenC := map[gsCall]bool{}
+	var cs []gsCall
+	for _, c := range calls {
+		if !seenC[c] {
+			seenC[c] = true
+			cs = append(cs, c)
+		}
+	}
+	sort.Slice(cs, func(i, j int) bool {
+		a, b := cs[i], cs[j]
+		if a.pkg != b.pkg {
+			return a.pkg < b.pkg
+		}
+		if a.caller != b.caller {
+			return a.caller < b.caller
+		}
+		return a.callee < b.callee
+	})
+	fmt.Println("\n/-- (package, caller, callee): calls of state-struct methods on the receiver made unconditionally by a top-level statement of a method -/")
+	fmt.Println("def genStateCalls : List (String × String × String) := [")
+	for i, c := range cs {
+		sep := ","
+		if i == len(cs)-1 {
+			sep = ""
+		}
+		fmt.Printf("  (%s, %s, %s)%s\n", detLeanStr(c.pkg), detLeanStr(c.caller), detLeanStr(c.callee), sep)
 	}
 	fmt.Println("]")
 }
